@@ -32,6 +32,33 @@ P = {
          'Coq proof (scanner invariant <-> specification) + differential correspondence', '6/C04'),
 }
 
+P.update({
+ 'C07': ('proof', 'Theorems over the table dumped from the built library on every run: every length field is strlen+1, names lower-case A-labels, classes 1..9, no duplicate (vm_compute over all rows); '
+         'C07_lookup_whole_label: lookup = the row ci-EQUAL to the whole label, else invalid TLD (no prefix/suffix can match); C07_email_classification: reserved -> special, single label -> not FQDN, '
+         'else class of the text after the last dot; U-label and A-label go through the same A-label. Correspondence: every row in 4 case patterns, every proper prefix, extensions, substitutions, neighbours, '
+         'e-mail level in 4 modes, all IDN rows of raw.csv in both spellings.', 'Coq proof over the regenerated table + differential correspondence', '6/C07'),
+ 'C08': ('proof', 'Theorems for an arbitrary integer mask: class k accepted iff Z.testbit mask (k+1); own bit only; negative codes and literals outside the policy; tld_check off makes table and mask irrelevant; '
+         'eav_init defaults equal the values dumped from the built library. Correspondence is exhaustive over the finite policy space (2^11 masks x codes -35..9 x 4 modes x tld on/off via a stub callback) '
+         'plus real addresses of every class through the facade.', 'Coq proof + exhaustive differential correspondence', '6/C08'),
+ 'C09': ('proof', 'Theorem C09_reserved_exactly: for every domain without root dot is_special_domain model = true iff last label in {test,example,invalid,localhost,onion} or last two labels example.{com,net,org}, '
+         'case-insensitively on whole labels, whatever precedes. Correspondence: 0-3 labels of every length before each reserved suffix and its one-edit neighbours, 4 modes.', 'Coq proof + differential correspondence', '6/C09'),
+ 'C11': ('proof', 'Theorems decided by vm_compute over data regenerated on every run: map gen_row punycode.csv = tld_list of the built library (row for row), no duplicates, lower-case A-labels, nothing outside the CSV is found, '
+         'tld-domains.txt = generator output on raw.csv, header enum order. The two Perl generators are run unmodified (Text::CSV stand-in) on the shipped and on generated CSVs and compared with the generator model and the shipped files; every row is looked up in the built library.',
+         'Coq proof by computation over regenerated tables + translation validation of the generators', '6/C11'),
+ 'C12': ('proof', 'Theorems: the four scanners return the same code on plain ASCII without DQUOTE/backslash; the three ASCII composers return the same record on such addresses; 5321 accepted implies 822 accepted; '
+         'domain verdict/class/flags independent of the ASCII mode. The relations are also evaluated directly on implementation outputs (bounded-exhaustive alphabets, whole addresses, four modes).', 'Coq proof + relational differential testing', '6/C12'),
+ 'C13': ('proof', 'Theorems by induction over operation lists: any two objects agreeing on (confirmed mode, tld_check, allow_tld) give the same observable outcome; these settings are a function of the operations since eav_init; '
+         'errstr stable under later successful setup; allocation balance and release by eav_free. Correspondence: all operation sequences up to length 3 (4) over 13 operations, random histories up to 40 (200) operations, reused-vs-fresh relation on the implementation.',
+         'Coq proof (invariant over histories) + differential correspondence', '6/C13'),
+ 'C15': ('proof', 'Theorems: return 1 iff errcode 0; errcode = negated validator code, message = table entry or IDN message; message table of the built library = documented texts; source of every result code; '
+         'local-part codes only from the local-part scanner or length > 64; "too many dots" implies "..", "non-ascii" implies a byte >= 0x80, "invalid TLD" implies no row; setup codes. Truth predicates also evaluated on implementation outputs.',
+         'Coq proof + differential correspondence on (ret, errcode, message)', '6/C15'),
+ 'C16': ('proof', 'Theorem C16_result_shapes: every result is (negative code, no flag, no strings) or (host name: only is_domain, halves reproduced) or (literal: code 0, flag of the family that parsed, domain without brackets); '
+         'at most one flag; code 0 without TLD checking, class 1..9 or negative with it. Correspondence in the default and -DEAV_EXTRA builds with lpart/domain compared byte for byte.', 'Coq proof + differential correspondence', '6/C16'),
+ 'C19': ('proof', 'Theorems with the IDN conversion universally quantified: any error code with or without output buffer gives rc = IDN error, idn_rc = the code, no flag, message = the library message for that code, '
+         'allocation balance kept, next call unaffected. Fault injection: every libidn2 code x buffer yes/no at every position of runs of 1-50 validations, allocation counters, ASan/LSan build.', 'Coq proof + fault-injection correspondence', '6/C19'),
+})
+
 def entry(pid):
     cat, text, tech, ref = P[pid]
     return {
